@@ -81,7 +81,8 @@ class C15(Prop):
     RULE = ('call sequences of 1-10 operations (create, save, get, get_recording_metadata, iter_recording_ids, close, '
             'context-manager exit) on 1-3 cassettes sharing one bucket with foreign objects; all 16 read_only x transient x '
             "prefix ('', a, ab, a/b) combinations enumerated first, then random ones (including two cassettes with the same "
-            'prefix); for every save of a sequence the two variants of the sequence in which that save is interrupted after '
+            "prefix, and prefixes that differ from a neighbour's only by '/' characters: a/, /a, a//b, /); "
+            'for every save of a sequence the two variants of the sequence in which that save is interrupted after '
             'its 1st / 2nd bucket mutation, the variant in which the store REFUSES its 2nd put (an error answer: the saving code\'s own '
             'handlers run; also on re-saves of stored recordings) and the two in which it refuses the put of the full object; ~12% of the sequences save a recording, delete it by closing a transient cassette on '
             'its key prefix and save the very same recording again through the same cassette object; three sequences close a transient '
@@ -153,6 +154,11 @@ class C15(Prop):
                 src = rng.choice(cfgs)
                 cfgs.append({'p': src['p'], 'ro': (not src['ro']) if rng.random() < 0.8 else src['ro'],
                              'tr': rng.random() < 0.4})
+            elif rng.random() < 0.15:
+                # a key prefix that differs from a neighbour's only by '/' characters: a key space of its own
+                src = rng.choice(cfgs)['p']
+                twin = rng.choice([src + '/', '/' + src, src.replace('/', '//') if '/' in src else src + '/'])
+                cfgs.append({'p': twin, 'ro': rng.random() < 0.2, 'tr': rng.random() < 0.6})
             else:
                 free = [p for p in PREFIXES if p not in used]
                 cfgs.append({'p': rng.choice(free or PREFIXES), 'ro': rng.random() < 0.3, 'tr': rng.random() < 0.5})
